@@ -87,7 +87,9 @@ def requests(draw):
                 base = np.asarray(t["points"][0])
                 pts = [list(np.round(base * (0.2 + 0.6 * k / n), 6)) for k in range(n)]
                 t["points"] = [[float(v) for v in p] for p in pts]
-    opts = draw(st.sampled_from([{}, {}, {"scalar_type": "float32"}, {"scalar_type": "complex128"}, {"table_rtol": 1e-4}, {"sum_factorization": True}]))
+    opts = draw(st.sampled_from([{}, {}, {"scalar_type": "float32"}, {"scalar_type": "complex128"}, {"table_rtol": 1e-4}, {"sum_factorization": True},
+                                 {"scalar_type": "float32", "table_atol": 1e-8}, {"scalar_type": "complex128", "table_rtol": 1e-5, "epsilon": 1e-12},
+                                 {"table_rtol": 1e-5, "table_atol": 1e-10, "verbosity": 40, "part": "full"}]))
     jit = {"cflags": draw(st.sampled_from([[], ["-O1"], ["-O2", "-g0"], ["-O0", "-O2"], ["-O1", "-g0", "-fno-math-errno"]])), "debug": draw(st.booleans())}
     return {"targets": [strategies.strip_meta(t) for t in targets], "options": opts, "jit": jit}
 
